@@ -395,14 +395,14 @@ impl Driver for D {
         while k < log.calls.len() {
             let (inv, a, n, r) = log.calls[k];
             let line = format!("S {} {} {} {}", if inv { "i" } else { "f" }, bits(a), n, bits(r));
-            if seen.insert(line.clone()) {
+            if out.len() < 1200 && seen.insert(line.clone()) {
                 out.push(line);
             }
             if !inv && k + 1 < log.calls.len() {
                 let (inv2, a2, n2, r2) = log.calls[k + 1];
                 if inv2 && n2 == n && (a2 == r + 1.0 || (a2.is_nan() && (r + 1.0).is_nan())) {
                     let l = format!("L {} {} {}", n, bits(a), bits(r2));
-                    if seen.insert(l.clone()) {
+                    if out.len() < 1200 && seen.insert(l.clone()) {
                         out.push(l);
                     }
                     k += 2;
